@@ -138,10 +138,23 @@ def inline_new_helpers(expr: ast.AST, fi: FuncInfo, depth: int = 3) -> ast.AST:
                 continue
             h = mod.functions[q]
             body = [st for st in h.body if not (isinstance(st, ast.Expr) and isinstance(st.value, ast.Constant))]
-            if len(body) == 1 and isinstance(body[0], ast.Return) and body[0].value is not None:
-                params = [p for p in h.params if p not in ("self", "cls")]
-                if len(params) == len(call.args) and not call.keywords:
-                    return body[0].value, dict(zip(params, call.args))
+            params = [p for p in h.params if p not in ("self", "cls")]
+            if len(params) != len(call.args) or call.keywords:
+                continue
+            expr = _as_expression(body)
+            if expr is not None:
+                return expr, dict(zip(params, call.args))
+        return None
+
+    def _as_expression(body):
+        """`return e`  |  `if c: return a` (else: return b | followed by return b)  -> a single expression."""
+        if len(body) == 1 and isinstance(body[0], ast.Return) and body[0].value is not None:
+            return body[0].value
+        if body and isinstance(body[0], ast.If) and len(body[0].body) == 1 and isinstance(body[0].body[0], ast.Return) and body[0].body[0].value is not None:
+            rest = body[0].orelse if body[0].orelse else body[1:]
+            tail = _as_expression(list(rest))
+            if tail is not None and (body[0].orelse == [] or len(body) == 1):
+                return ast.IfExp(test=body[0].test, body=body[0].body[0].value, orelse=tail)
         return None
 
     class I(ast.NodeTransformer):
